@@ -389,12 +389,12 @@ theorem rtFld_closed (S : StrFns) (camel : Bool) (lv : LevelPred) :
     | arr xs => rfl
 end
 
-/-- **Closed trees.**  If the class and every class nested in it set `_additional_properties = False` in
-    their own bodies, no serialized key is ever kept as an undefined attribute: the hypotheses of the
+/-- **Closed trees.**  If the class and every class nested in it forbid additional properties (in their
+    own bodies or — since /repo 0225533 — by inheritance), no serialized key is ever kept as an undefined attribute: the hypotheses of the
     round trip do not depend on `keep_undefined`, and `deserialize(serialize x) = x` for every
     `keep_undefined` under the level hypotheses alone. -/
 theorem closed_tree_round_trip (S : StrFns) (camel ku : Bool) (c : Cls) (ms : MDict) (ov : Option MDict)
-    (strict : Bool) (x : J) (hc : c.closedOwn = true) (hcl : closedFs c.fields = true)
+    (strict : Bool) (x : J) (hc : c.closedAny = true) (hcl : closedFs c.fields = true)
     (h : rtCls S camel (levelOK S) c ms ov strict x = true) :
     deserK S camel ku c ov strict (ser S camel ms x) = .ok x := by
   apply mapper_round_trip_K
@@ -409,12 +409,14 @@ theorem closed_tree_round_trip (S : StrFns) (camel ku : Bool) (c : Cls) (ms : MD
   | str s => simp [rtCls, rtClsK] at h
   | arr xs => simp [rtCls, rtClsK] at h
 
-/-- `Deserializer(cls).deserialize` on a class that allows additional properties passes
-    `keep_undefined = False`: nothing is ever kept, whatever the nested classes say -/
-theorem open_top_default_keeps_nothing (S : StrFns) (camel : Bool) (c : Cls) (ov : Option MDict) (strict : Bool)
-    (doc : J) (h : c.closedAny = false) :
-    deserK S camel c.closedAny c ov strict doc = deser S camel c ov strict doc := by
-  rw [h]; rfl
+/-- `Deserializer(cls).deserialize` passes `keep_undefined = False` by default for every class (since
+    /repo 005d815): with the default nothing is ever kept as an undefined attribute, whatever the classes
+    of the tree say — `rtClsK false` is `rtCls`, so `mapper_round_trip` has no `exFree` hypothesis -/
+theorem deserializer_default_keeps_nothing (S : StrFns) (camel : Bool) (c : Cls) (ms : MDict)
+    (ov : Option MDict) (strict : Bool) (x : J) (lv : LevelPred) :
+    rtClsK S camel false lv c ms ov strict x = rtCls S camel lv c ms ov strict x
+    ∧ deserK S camel false c ov strict (ser S camel ms x) = deser S camel c ov strict (ser S camel ms x) :=
+  ⟨rfl, rfl⟩
 
 /-- **No fallback capture.**  Under the level hypotheses an absent field reads nothing from the
     serialized level — neither under its key nor under its own name — with or without
@@ -432,7 +434,7 @@ theorem absent_field_not_captured (S : StrFns) (camel : Bool) (ms M : MDict) (st
 def C07_statement : Prop :=
   ∀ (S : StrFns) (camel : Bool) (c : Cls) (ov : Option MDict) (strict : Bool) (x : J),
     rtCls S camel (levelDom S) c (aggregate S true c.own c.fields ov camel) ov strict x = true →
-    deserK S camel c.closedAny c ov strict (serialize S camel c ov x) = .ok x
+    deser S camel c ov strict (serialize S camel c ov x) = .ok x
 
 /-! ### flat classes: everything but injectivity, NoDot and NoFallbackCapture is discharged -/
 
@@ -698,9 +700,7 @@ theorem C07_statement_false : ¬ C07_statement := by
   have h1 := nested_resync_counterexample
   have h2 := h upFns false topCls none false topInst h1.1
   have h3 := h1.2
-  have e : deserK upFns false topCls.closedAny topCls none false (serialize upFns false topCls none topInst)
-      = deser upFns false topCls none false (serialize upFns false topCls none topInst) := rfl
-  rw [← e, h2] at h3
+  rw [h2] at h3
   revert h3
   decide
 
@@ -759,16 +759,21 @@ def kuO : Cls :=
     fields := [.nested "n" false .one { ser := [.dict [(.fld "q", .key "k")]] } kuN, .scalar "z" false] }
 def kuInst : J := .obj [("n", .obj [("q", .int 1)]), ("z", .int 2)]
 
-/-- finding `keep-undefined-leak`: `Deserializer(O).deserialize` turns `keep_undefined` on because `O` is
-    closed; `O` itself drops undefined keys but hands the flag to the open nested class `N`, which keeps
-    its renamed key `k` as an extra attribute: the result is `O(n=N(q=1, k=1), z=2)`.  The instance is
-    inside the demanded domain and satisfies `Sync` at every level; only `exFree` fails. -/
-theorem keep_undefined_leak_counterexample :
-    rtCls idFns false (levelDom idFns) kuO (aggregate idFns true kuO.own kuO.fields none false) none false kuInst = true
-    ∧ rtCls idFns false (levelOK idFns) kuO (aggregate idFns true kuO.own kuO.fields none false) none false kuInst = true
-    ∧ rtClsK idFns false kuO.closedAny (levelOK idFns) kuO (aggregate idFns true kuO.own kuO.fields none false)
+/-- former finding `keep-undefined-leak` (fixed by /repo 005d815): `Deserializer(O).deserialize` used to
+    turn `keep_undefined` on because `O` is closed; `O` itself drops undefined keys but handed the flag to
+    the open nested class `N`, which kept its renamed key `k` as an extra attribute.  The default is now
+    `False` for every class: the instance satisfies the hypotheses of `mapper_round_trip` and round-trips.
+    (With an explicit `keep_undefined=True` the nested open class still keeps `k` — by design — and
+    `exFree` fails: last conjunct.) -/
+theorem keep_undefined_leak_fixed :
+    rtCls idFns false (levelOK idFns) kuO (aggregate idFns true kuO.own kuO.fields none false) none false kuInst = true
+    ∧ isOkEq (deser idFns false kuO none false (serialize idFns false kuO none kuInst))
+        (fun y => match y with
+          | .obj [("n", .obj [("q", .int 1)]), ("z", .int 2)] => true
+          | _ => false) = true
+    ∧ rtClsK idFns false true (levelOK idFns) kuO (aggregate idFns true kuO.own kuO.fields none false)
         none false kuInst = false
-    ∧ isOkEq (deserK idFns false kuO.closedAny kuO none false (serialize idFns false kuO none kuInst))
+    ∧ isOkEq (deserK idFns false true kuO none false (serialize idFns false kuO none kuInst))
         (fun y => match y with
           | .obj [("n", .obj [("q", .int 1), ("k", .int 1)]), ("z", .int 2)] => true
           | _ => false) = true := by
@@ -780,14 +785,16 @@ def kuC : Cls :=
   { own := [.dict [(.fld "q", .key "k")]], closedOwn := false, closedAny := true,
     fields := [.scalar "q" false, .scalar "z" false] }
 
-/-- finding `inherited-closed-class-rejects-mapped-key`: the subclass's own `__dict__` does not forbid
-    additional properties, so the renamed key `k` is passed to the constructor as an undefined key, and
-    the constructor (which honours the inherited flag) refuses it. -/
-theorem inherited_closed_counterexample :
-    rtCls idFns false (levelOK idFns) kuC (aggregate idFns true kuC.own kuC.fields none false) none false
+/-- former finding `inherited-closed-class-rejects-mapped-key` (fixed by /repo 0225533): the subclass's
+    own `__dict__` does not forbid additional properties, so the renamed key `k` used to be passed to the
+    constructor as an undefined key and refused.  The inherited flag now decides: nothing is passed, and
+    the instance round-trips even with `keep_undefined` on. -/
+theorem inherited_closed_fixed :
+    rtClsK idFns false true (levelOK idFns) kuC (aggregate idFns true kuC.own kuC.fields none false) none false
         (.obj [("q", .int 1), ("z", .int 2)]) = true
-    ∧ isErr (deserK idFns false kuC.closedAny kuC none false
-        (serialize idFns false kuC none (.obj [("q", .int 1), ("z", .int 2)]))) = true := by
+    ∧ isOkEq (deserK idFns false true kuC none false
+        (serialize idFns false kuC none (.obj [("q", .int 1), ("z", .int 2)])))
+        (fun y => match y with | .obj [("q", .int 1), ("z", .int 2)] => true | _ => false) = true := by
   decide
 
 /-- a tree in which *every* class forbids additional properties in its own body round-trips whatever
